@@ -56,15 +56,19 @@ def replay(ck, behaviours, label, chunk=400):
   mattered = sum(1 for b in behaviours for i, st in enumerate(b["steps"])
                  if i > 0 and len(b["cfg"]["shape"]) > 1 and any(len(set(a)) > 1 for a in b["steps"][i - 1]["acc"]))
   lossy = sum(1 for b in behaviours for st in b["steps"] if any(n_ > e_ for n_, e_ in zip(st["nu"], st["ex"])))
+  flagged = set()
   for j, r in zip(jobs, res):
     c = j["cfg"]
     rk = f"rank{len(c['shape'])}"
     b2 = f"beta2={c['bn']}/{c['bd']}"
     if r["error"]:
+      flagged.add(c.get("tag", ""))
       ck.violation(f"sm3|{rk}|{'internal_error' if r.get('kind') == 'internal' else 'rejected'}",
                    f"{label}: shape {c['shape']} {b2}: sm3 raised {r['error']}",
                    {"job_cfg": c, "tb": r.get("tb")})
       continue
+    if r["mismatches"]:
+      flagged.add(c.get("tag", ""))
     ck.calib("update_vs_spec_nu_rel", r["worst_upd"], sm3_replay.UPD_TOL)
     bad = {m["beh"] for m in r["mismatches"]}
     for bi, steps in enumerate(j["behaviours"]):
@@ -77,7 +81,19 @@ def replay(ck, behaviours, label, chunk=400):
                    f"gradients {[s['g'] for s in j['behaviours'][m['beh']][:m['step'] + 1]]}: "
                    f"{m['clause']} {str(m['detail'])[:300]}",
                    {"cfg": c, "steps": j["behaviours"][m["beh"]], "mismatch": m, "lr": LR, "eps": EPS})
-  return mattered, lossy
+  return mattered, lossy, flagged
+
+
+def guarded_selftest(ck, name, rejected, base_ok):
+  """A binding self-test corrupts a case that the real code passes.  If the code under test is
+  itself wrong for the base case the self-test says nothing - and must not turn the VIOLATION
+  verdict into a machinery error."""
+  if base_ok:
+    ck.selftest(name, rejected)
+  elif ck.violations:
+    ck.assume(f"self-test '{name}' skipped: its uncorrupted base case already violates the property")
+  else:
+    raise core.MachineryError(f"self-test '{name}': base case fails although no violation was reported")
 
 
 def record(ck, n_grid, n_float):
@@ -167,7 +183,7 @@ def run(ck):
                                      and b["steps"][0]["g"] == [2, -1, -1, 2])})
   ck.sample({"spec_behaviour_simulated": sim[0]})
   ph["gen"] = round(time.time() - t0, 1)
-  mattered, lossy = replay(ck, beh + sim, "SM3_Gen replay", chunk=200)
+  mattered, lossy, _ = replay(ck, beh + sim, "SM3_Gen replay", chunk=200)
   ph["replay"] = round(time.time() - t0, 1)
   m2 = l2 = 0
   ck.cov["steps_where_min_over_unequal_accumulators"] = mattered
@@ -177,40 +193,54 @@ def run(ck):
   # binding self-tests (R): one corrupted expected accumulator / one corrupted nu must be flagged
   base = next(b for b in beh if b["cfg"]["shape"] == [2, 2] and b["cfg"]["T"] == 2
               and b["steps"][0]["g"] == [2, -1, -1, 2])
-  bad1, bad2 = copy.deepcopy(base), copy.deepcopy(base)
+  base0, bad1, bad2 = copy.deepcopy(base), copy.deepcopy(base), copy.deepcopy(base)
   bad1["steps"][1]["acc"][1][0] += 1
   bad2["steps"][0]["nu"][0] *= 2
-  bad2["cfg"] = dict(bad2["cfg"], tag="selftest2")   # separate job
+  base0["cfg"] = dict(base["cfg"], tag="base")            # separate jobs
+  bad1["cfg"] = dict(base["cfg"], tag="acc")
+  bad2["cfg"] = dict(base["cfg"], tag="nu")
   sub = core.Check(ck.pid, ck.level, ck.tier, ck.seed)
   sub.work = ck.work
   sub.findings = []
-  replay(sub, [bad1, bad2], "selftest")
-  keys = {v[0] for v in sub.violations}
-  ck.selftest("R: expected accumulator entry + 1 is flagged", "sm3|rank2|accumulator_differs_from_model" in keys)
-  ck.selftest("R: expected nu entry * 2 is flagged", "sm3|rank2|update_is_not_lr_g_over_sqrt_nu" in keys)
+  _, _, flagged = replay(sub, [base0, bad1, bad2], "selftest")
+  guarded_selftest(ck, "R: expected accumulator entry + 1 is flagged", "acc" in flagged, "base" not in flagged)
+  guarded_selftest(ck, "R: expected nu entry * 2 is flagged", "nu" in flagged, "base" not in flagged)
   # ---- V ------------------------------------------------------------------------------
   ph["selftest_R"] = round(time.time() - t0, 1)
   traces = record(ck, 60 if quick else 600, 90 if quick else 900)
   ph["record"] = round(time.time() - t0, 1)
   if not traces:
+    if ck.violations:
+      return
     raise core.MachineryError("no trace recorded")
   ck.sample({"recorded_trace": {"cfg": traces[0]["cfg"], "events": traces[0]["events"][:2],
                                 "meta": traces[0]["meta"]}})
-  fl = next(t for t in traces if t["meta"]["kind"] == "float")
-  ck.sample({"recorded_float_trace": {"cfg": fl["cfg"], "events": fl["events"][:2], "meta": fl["meta"]}})
-  judge(ck, traces, "recorded sm3 run")
-  g0 = copy.deepcopy(next(t for t in traces if t["meta"]["kind"] == "grid" and len(t["cfg"]["shape"]) > 1))
-  g0["events"][-1]["acc"][0][0] += 1
-  f0 = copy.deepcopy(fl)
-  f0["events"][-1]["cover"] = 1
-  f1 = copy.deepcopy(next(t for t in traces if t["meta"]["kind"] == "float" and t["cfg"]["b2one"]))
-  f1["events"][1]["mono"] = 1
+  fl = next((t for t in traces if t["meta"]["kind"] == "float"), None)
+  if fl:
+    ck.sample({"recorded_float_trace": {"cfg": fl["cfg"], "events": fl["events"][:2], "meta": fl["meta"]}})
+  vs = judge(ck, traces, "recorded sm3 run")
+  ok = [t for t, v in zip(traces, vs) if v["accepted"]]
+
+  def pick(pred):
+    return copy.deepcopy(next((t for t in ok if pred(t)), None))
+  g0 = pick(lambda t: t["meta"]["kind"] == "grid" and len(t["cfg"]["shape"]) > 1)
+  f0 = pick(lambda t: t["meta"]["kind"] == "float")
+  f1 = pick(lambda t: t["meta"]["kind"] == "float" and t["cfg"]["b2one"])
+  if g0:
+    g0["events"][-1]["acc"][0][0] += 1
+  if f0:
+    f0["events"][-1]["cover"] = 1
+  if f1:
+    f1["events"][1]["mono"] = 1
+  cases = [("V: logged accumulator + 1 is rejected", g0), ("V: one uncovered coordinate is rejected", f0),
+           ("V: decreasing accumulator with beta2 = 1 is rejected", f1)]
   sub = core.Check(ck.pid, ck.level, ck.tier, ck.seed)
   sub.work = ck.work
-  vs = sub.validate("SM3_Trace", "SM3_Trace", [{"cfg": t["cfg"], "events": t["events"]} for t in (g0, f0, f1)])
-  ck.selftest("V: logged accumulator + 1 is rejected", not vs[0]["accepted"])
-  ck.selftest("V: one uncovered coordinate is rejected", not vs[1]["accepted"])
-  ck.selftest("V: decreasing accumulator with beta2 = 1 is rejected", not vs[2]["accepted"])
+  have = [(n_, t) for n_, t in cases if t is not None]
+  vs = sub.validate("SM3_Trace", "SM3_Trace", [{"cfg": t["cfg"], "events": t["events"]} for _, t in have]) if have else []
+  got = {n_: v for (n_, _), v in zip(have, vs)}
+  for n_, t in cases:
+    guarded_selftest(ck, n_, n_ in got and not got[n_]["accepted"], t is not None)
   ck.assume("replayed gradients are small integers and beta2 is dyadic, so float32 accumulators are exact "
             "and compared with ==; the update is compared with 2e-5 relative tolerance (float32 sqrt/divide)")
   ck.assume("float traces: inequalities are judged against a float64 recursion with a one-sided relative "
